@@ -62,6 +62,59 @@ func verifSeen(err, derr error, invoked int64) (int64, int64) {
 	return breaker.VSOtherSeen, 0
 }
 
+const (
+	vdStallTimeout = 21
+	vdStallCancel  = 22
+)
+
+func verifChain(ctx context.Context, method string, p *breaker.VerifProbe, before [4]int64, class int64, derr error,
+	pv any, invoked *int64, down func() error) []int64 {
+	timeout := 10 * time.Minute
+	if class == vdStallTimeout {
+		timeout = 25 * time.Millisecond
+	}
+	ti := UnaryTimeoutInterceptor(timeout)
+	info := &grpc.UnaryServerInfo{FullMethod: method}
+	parked := make(chan struct{}, 1)
+	release := make(chan struct{})
+	cctx, cancel := context.WithCancel(ctx)
+	defer cancel()
+	handler := func(ctx context.Context, req any) (any, error) {
+		if class == vdStallTimeout || class == vdStallCancel {
+			*invoked++
+			parked <- struct{}{}
+			<-release
+			return nil, nil
+		}
+		return nil, down()
+	}
+	var sk, sc int64
+	finished := make(chan struct{})
+	go func() {
+		defer close(finished)
+		defer func() {
+			if r := recover(); r != nil {
+				sk, sc = breaker.VSPanic, 0 // UnaryTimeoutInterceptor re-raises the panic as a string with the stack
+			}
+		}()
+		_, e := UnaryBreakerInterceptor(cctx, nil, info, func(ctx context.Context, req any) (any, error) {
+			return ti(ctx, req, info, handler)
+		})
+		sk, sc = verifSeen(e, derr, *invoked)
+	}()
+	if class == vdStallCancel {
+		select {
+		case <-parked:
+			cancel() // the client goes away while the handler is running
+		case <-finished:
+		}
+	}
+	<-finished
+	close(release)
+	after := p.Sums()
+	return []int64{*invoked, after[0] - before[0], after[1] - before[1], after[2] - before[2], sk, sc}
+}
+
 func TestVerifC01W(t *testing.T) {
 	if os.Getenv("VERIF_IN") == "" {
 		t.Skip("VERIF_IN not set")
@@ -103,6 +156,13 @@ func TestVerifC01W(t *testing.T) {
 			ctx := context.Background()
 			if ctxdone {
 				ctx = cancelled
+			}
+			if k[0] == 22 {
+				// zrpc's order: Breaker around Timeout around the handler.  A stalling handler is
+				// parked until the chain has returned, so only the timeout / cancel branch can be taken;
+				// calls that must finish get a very long timeout (failure detector only).
+				out.Obs = append(out.Obs, verifChain(ctx, method, p, before, class, derr, pv, &invoked, down))
+				continue
 			}
 			var sk, sc int64
 			func() {
